@@ -373,6 +373,14 @@ class ScenarioGen:
             # are a repeated field), not in XML (the schema requires a cycle)
             net.add_traffic_light(TrafficLight(self.nid(), self.pos()), {lids[0]})
             self.feat("light.without-cycle")
+            # optional positions left unset (protobuf: optional fields; the XML reader deliberately synthesises positions)
+            net.add_traffic_light(TrafficLight(self.nid(), None, TrafficLightCycle([TrafficLightCycleElement(
+                self.cyc(colors), 3)])), {lids[-1]})
+            if members:
+                net.add_traffic_sign(TrafficSign(self.nid(), [TrafficSignElement(members[0], ["50"] if members[
+                    0].name in __import__("commonroad.scenario.traffic_sign", fromlist=["x"]).TRAFFIC_SIGN_WITH_ADDITIONAL_VALUE
+                    else [])], {lids[0]}, None), {lids[0]})
+            self.feat("sign-or-light.without-position")
         # stop lines refer to a subset of their lanelet's signs / lights
         for la in lls:
             if r.random() < 0.5 and not (self.defaults and la is lls[0]):
@@ -382,7 +390,10 @@ class ScenarioGen:
                 lr = set(r.sample(sorted(la.traffic_lights), r.randint(0, len(la.traffic_lights)))) if kind == "refs" else \
                     (None if kind == "none-refs" else set())
                 where = self.cyc(["anywhere", "at-lanelet-end", "near-lanelet-end", "anywhere"])
-                if where == "anywhere" or la.left_vertices.shape[1] != 2:
+                if self.defaults and la is lls[-1]:
+                    where = "without-points"  # start and end are optional (protobuf: repeated points may be empty)
+                    p0 = p1 = None
+                elif where == "anywhere" or la.left_vertices.shape[1] != 2:
                     p0, p1 = self.pos(), self.pos()
                 elif where == "at-lanelet-end":
                     p0, p1 = la.left_vertices[-1].copy(), la.right_vertices[-1].copy()
